@@ -15,7 +15,7 @@ LEVEL = {
 # properties whose obligations are generated in interference mode as well
 INTF = {'C05', 'C06'}
 # properties that also get the table-interference pass of the writers (functions with `onlock` clauses)
-TINTF = {'C03', 'C04', 'C05'}
+TINTF = {'C03', 'C04', 'C05', 'C08', 'C10'}
 
 
 def contract_tags(con):
